@@ -259,6 +259,7 @@ def rule_history(facts):
 
 def run(ctx, t0):
     facts = ctx.facts()
+    pat.FACTS = facts
     from rules import C14
     r14 = C14.rule_fields(facts)
     r14.rule = "C02.R4b"
